@@ -108,7 +108,13 @@ RULE = (
     "helper by keywords; one function-value array object (a view into a larger array) through all four types twice, integrate(f), integrate(f, f), "
     "the grid's own weights / points arrays as f / centres, the dipole helper, with the surrounding bytes checked; histories with rejected calls of "
     "every kind in between and comparison with a fresh grid object; corr and oracle run as independent parts (an exception in one is recorded, the "
-    "others still run)"
+    "others still run). Round 5 (every run, oracle): plain Grid / OneDGrid with synthetic points of 1025, 4097, 20001, 31234, 65537 points "
+    "(thorough: up to 1000003) for every moment type in 3-D, Cartesian / radial in 1-D / 2-D, integrate with 1-3 arrays and the dipole helper, against "
+    "a vectorised per-point evaluation of the defining integrand and against additivity over an uneven split of the grid; order lists / moments with more "
+    "than 1024 rows; 1025 / 2049 points through the model and the generated program; descending / shuffled / ascending point orders (Grid, OneDGrid, "
+    "reversed library grids, AtomGrid on a descending radial grid); argument arrays edited in place between calls (f[:] = new, centres overwritten, f *= c; "
+    "dipole density / coordinates); two grid objects differing only in a node exactly on the centre, used alternately; centres / function values / "
+    "dipole density / coordinates given directly as float32, float16, longdouble, int64 (argument unchanged, second call identical)"
 )
 TRUSTED_BASE = [
     "Lean 4.33 kernel; axioms propext, Classical.choice, Quot.sound only (audited per theorem)",
@@ -364,6 +370,19 @@ def call_dipole(d, Grid, dipole_moment_of_molecule):
     elif kind == "readonly":
         for a in (dens, coords, charges):
             a.setflags(write=False)
+    elif kind == "float32-coords":               # round 5, class 23 (the values are float32-representable)
+        coords = coords.astype(np.float32)
+    elif kind == "longdouble-density":
+        dens = dens.astype(np.longdouble)
+    elif kind == "float32-density":
+        dens = dens.astype(np.float32)
+    elif kind == "inplace":                      # round 5, class 25: the same array objects with other contents before
+        dens0, coords0 = dens.copy(), np.asarray(coords, dtype=float).copy()
+        dens[:] = dens0[::-1] * 0.5
+        coords = coords0 + 0.75
+        dipole_moment_of_molecule(g, dens, coords, charges)
+        dens[:] = dens0
+        coords -= 0.75
     if kind == "keywords":
         r1 = dipole_moment_of_molecule(charges=charges, coords=coords, density=dens, grid=g)
     else:
@@ -733,6 +752,10 @@ def corr(ctx: Ctx):
                     c["L"] = L
                     cases.append(c)
         cases += _systematic_cases(ctx)
+        for ty, n_ in (("cartesian", 1025), ("radial", 2049)):      # round 5, class 21: past a block boundary, through the model too
+            c = _small_case(ctx, ty, 3, n_, 2, 2)
+            c.update(call="kw", twice=False, shape=f"N{n_}")
+            cases.append(c)
         while len(cases) < ncase:
             cases.append(_case(ctx, prev=cases[-1]))
         # malformed: wrong f length, wrong centre dimension
@@ -1495,6 +1518,9 @@ def _library_grids(ctx: Ctx, budget: str):
         ("Tensor1DGrids", "Tensor1DGrids(GaussLegendre(3), GaussChebyshev(2), GaussLegendre(2))", []),
         ("GaussChebyshev (OneDGrid)", "GaussChebyshev(5)", []),
         ("Grid of one point", f"Grid(np.array([{ctr}]), np.array([0.7]))", [ctr]),
+        # round 5, class 22: a descending radial grid (as decreasing transforms produce them), unsorted degrees
+        ("AtomGrid on a descending radial grid", f"AtomGrid(OneDGrid(rg.points[::-1].copy(), rg.weights[::-1].copy(), (0, np.inf)), degrees=[3, 7, 3, 5, 3], center=np.array({ctr}))", [ctr]),
+        ("reversed GaussChebyshev (OneDGrid)", "OneDGrid(GaussChebyshev(6).points[::-1].copy(), GaussChebyshev(6).weights[::-1].copy())", []),
     ]
     for name, expr, special in grids:
         try:
@@ -1715,6 +1741,318 @@ def _oracle_value_kinds(ctx: Ctx, budget: str):
         except Exception as e:
             ctx.fail("oracle", f"basegrid.moments:{typ}:{kind}", f"function values of kind {kind}: raised {type(e).__name__}: {e}", witness=d, snippet=snip)
 
+# ----------------------------------------------------------------------------------------
+# round 5, class 21: sizes past every plausible block / chunk boundary.  Plain Grid / OneDGrid with synthetic points
+# (regenerated from an integer seed, so the replay is self-contained) of sizes that are no multiple of 2^k or
+# {1,2,5}*10^k and lie just above such values, for every moment type, integrate and the dipole helper.  Two references:
+# (a) a vectorised per-point evaluation of the defining integrand with independently coded closed forms (orders <= 2),
+# (b) additivity: the moments of the whole grid are the sum of the moments of the two parts of an uneven split.
+# ----------------------------------------------------------------------------------------
+LARGE_SRC = """
+def big_data(seed, n, dim):
+    rs = np.random.default_rng(seed)
+    pts = rs.uniform(-1.5, 1.5, (n, dim))
+    w = rs.uniform(0.2, 1.2, n)
+    f = rs.uniform(0.5, 2.0, n) * rs.choice([-1.0, 1.0, 1.0], n)
+    f[-1], f[-2], f[n // 2] = 37.0, -23.0, 11.0          # the last points carry weight
+    return pts, w, f
+def ref_rows(typ, L, dim):
+    if typ == 'cartesian':
+        return [list(c) for l in range(L + 1) for c in sorted([c for c in itertools.product(range(l + 1), repeat=dim) if sum(c) == l], reverse=True)]
+    if typ == 'radial':
+        return [[l] for l in range(L + 1)]
+    ms = lambda l: [0] + [s_ * x for x in range(1, l + 1) for s_ in (1, -1)]
+    if typ == 'pure':
+        return [[l, m] for l in range(L + 1) for m in ms(l)]
+    return [[n, l, m] for n in range(1, L + 1) for l in range(n) for m in ms(l)]
+def solid_vec(l, m, d):
+    x, y, z = d[:, 0], d[:, 1], d[:, 2]
+    r2 = x * x + y * y + z * z
+    s3 = math.sqrt(3.0)
+    if l == 0: return np.ones(len(d))
+    if l == 1: return {0: z, 1: x, -1: y}[m]
+    return {0: (3 * z * z - r2) / 2, 1: s3 * x * z, -1: s3 * y * z, 2: s3 / 2 * (x * x - y * y), -2: s3 * x * y}[m]
+def basis_vec(typ, order, d):
+    \"\"\"-> (basis function at every centred point, its magnitude bound) for orders <= 2\"\"\"
+    if typ == 'cartesian':
+        b = np.ones(len(d))
+        for j, e in enumerate(order):
+            for _ in range(int(e)):
+                b = b * d[:, j]
+        return b, np.abs(b)
+    r = np.sqrt(np.sum(d * d, axis=1))
+    if typ == 'radial':
+        return r ** int(order[0]), r ** int(order[0])
+    if typ == 'pure':
+        return solid_vec(order[0], order[1], d), r ** int(order[0])
+    return r ** int(order[0]) * solid_vec(order[1], order[2], d), r ** int(order[0] + order[1])
+def large_check(data, Grid, OneDGrid):
+    seed, n, dim, typ, L, cs, flat = data['seed'], data['n'], data['dim'], data['typ'], data['L'], data['cs'], data.get('flat', False)
+    pts, w, f = big_data(seed, n, dim)
+    if flat:
+        order_ = np.argsort(pts[:, 0]); pts, w, f = pts[order_], w[order_], f[order_]
+    g = OneDGrid(pts[:, 0].copy(), w.copy()) if flat else Grid(pts.copy(), w.copy())
+    centers = np.array(cs, dtype=float)
+    vals, orders = g.moments(L, centers, f, type_mom=typ, return_orders=True)
+    vals = np.asarray(vals, dtype=float)
+    orders = np.asarray(orders); orders = orders.reshape(-1, 1) if orders.ndim == 1 else orders
+    rows = ref_rows(typ, L, dim)
+    assert [list(map(int, r)) for r in orders] == rows, f'order list {orders.tolist()[:8]}'
+    assert vals.shape == (len(rows), len(cs)), f'shape {vals.shape} for {len(rows)} rows and {len(cs)} centres'
+    for ci, c in enumerate(cs):
+        d = pts - np.array(c)
+        for k, order in enumerate(rows):
+            b, mag = basis_vec(typ, order, d)
+            want, scale = math.fsum((w * f * b).tolist()), float(np.sum(np.abs(w * f) * mag))
+            assert abs(vals[k][ci] - want) <= 1e-9 * (scale + 1e-300), f'{n} points, {typ} row {k} {order} centre {ci}: moments {vals[k][ci]!r}, per-point evaluation of the defining integrand {want!r}'
+    k0 = n // 3 + 7                                        # additivity over an uneven split of the same grid
+    parts = [(pts[:k0], w[:k0], f[:k0]), (pts[k0:], w[k0:], f[k0:])]
+    tot = sum(np.asarray((OneDGrid(p[:, 0].copy(), ww.copy()) if flat else Grid(p.copy(), ww.copy())).moments(L, centers, ff, type_mom=typ), dtype=float) for p, ww, ff in parts)
+    bound = np.asarray(Grid(pts.copy(), w.copy()).moments(L, centers, np.abs(f), type_mom='radial'), dtype=float)[-1] + np.sum(np.abs(w * f))
+    assert np.all(np.abs(vals - tot) <= 1e-9 * (np.max(bound) * 4 + 1e-300)), f'{n} points, {typ}: moments of the whole grid {vals.ravel()[:4].tolist()} differ from the sum over the two parts of a split at {k0}: {tot.ravel()[:4].tolist()}'
+def large_integrate_check(data, Grid, dipole_moment_of_molecule):
+    seed, n = data['seed'], data['n']
+    pts, w, f = big_data(seed, n, 3)
+    g = Grid(pts.copy(), w.copy())
+    h = np.cos(pts[:, 0]) + 1.5
+    for arrays in ([f], [f, h], [f, h, h]):
+        got = float(g.integrate(*arrays))
+        t = w.copy()
+        for a in arrays:
+            t = t * a
+        assert abs(got - math.fsum(t.tolist())) <= 1e-11 * float(np.sum(np.abs(t))), f'{n} points: integrate of {len(arrays)} array(s) = {got!r}, sum_i w_i prod a_k[i] = {math.fsum(t.tolist())!r}'
+    k0 = n // 3 + 7
+    two = float(Grid(pts[:k0].copy(), w[:k0].copy()).integrate(f[:k0])) + float(Grid(pts[k0:].copy(), w[k0:].copy()).integrate(f[k0:]))
+    assert abs(float(g.integrate(f)) - two) <= 1e-11 * float(np.sum(np.abs(w * f))), f'{n} points: integrate(f) differs from the sum over the two parts of a split'
+    if data.get('dipole'):
+        coords, charges, masses = np.array(data['coords']), np.array(data['charges']), np.array(data['masses'])
+        dens = np.abs(f)
+        got = np.asarray(dipole_moment_of_molecule(g, dens, coords, charges), dtype=float)
+        C = (coords * masses[:, None]).sum(axis=0) / masses.sum()
+        for j in range(3):
+            nuc = math.fsum((charges * (coords[:, j] - C[j])).tolist())
+            ele = math.fsum((w * dens * (pts[:, j] - C[j])).tolist())
+            sc = float(np.sum(np.abs(charges * (coords[:, j] - C[j]))) + np.sum(np.abs(w * dens * (pts[:, j] - C[j]))))
+            assert abs(got[j] - (nuc - ele)) <= 1e-9 * (sc + 1), f'{n} points: dipole component {j} = {got[j]!r}, nuclear minus electronic first moment about the centre of mass {nuc - ele!r}'
+"""
+exec("import math, itertools\nimport numpy as np\n" + LARGE_SRC, _ns)
+large_check, large_integrate_check = _ns["large_check"], _ns["large_integrate_check"]
+
+LARGE_SNIPPET = """import warnings; warnings.filterwarnings('ignore')
+import math, itertools, numpy as np
+from grid.basegrid import Grid, OneDGrid
+from grid.utils import dipole_moment_of_molecule
+{large_src}
+{call}
+"""
+QUICK_SIZES = [1025, 4097, 20001, 31234, 65537]
+THOROUGH_SIZES = [131073, 200003, 524289, 1000003]
+
+
+def _oracle_large(ctx: Ctx, budget: str):
+    ut = importlib.import_module("grid.utils")
+    bg = importlib.import_module("grid.basegrid")
+    rng = ctx.rng
+    sizes = list(QUICK_SIZES) + (THOROUGH_SIZES if (ctx.thorough or budget == "large") else [])
+    for n in sizes:
+        for typ in TYPES:
+            dim = 3
+            L = 2 if n <= 70000 else 1
+            data = dict(seed=rng.randrange(10 ** 6), n=n, dim=dim, typ=typ, L=L, cs=[[_r(rng.uniform(-1, 1)) for _ in range(dim)], [0.0] * dim])
+            _run_large(ctx, f"basegrid.moments:{typ}:large-grid", data, "large_check", bg)
+        for typ in TYPES[:2]:                               # one- and two-dimensional points, OneDGrid
+            dim, flat = ((1, True), (2, False))[(n + ctx.seed + (typ == "radial")) % 2]
+            data = dict(seed=rng.randrange(10 ** 6), n=n, dim=dim, typ=typ, L=3 if n <= 70000 else 1, cs=[[_r(rng.uniform(-1, 1)) for _ in range(dim)]], flat=flat)
+            _run_large(ctx, f"basegrid.moments:{typ}:large-grid" + (":points-1d" if flat else f":dim{dim}"), data, "large_check", bg)
+        charges = [rng.randint(1, 82), rng.randint(1, 82), 82]
+        data = dict(seed=rng.randrange(10 ** 6), n=n, dipole=True, coords=[[_r(rng.uniform(-1, 1)) for _ in range(3)] for _ in range(3)], charges=charges,
+                    masses=[float(ut.isotopic_masses[z]) for z in charges])
+        _run_large(ctx, "basegrid.integrate:large-grid", data, "large_integrate_check", bg, ut)
+
+
+def _run_large(ctx, key, data, fn, bg, ut=None):
+    ctx.tagc(f"oracle:large:{data['n']}")
+    call = f"{fn}({data!r}, Grid, " + ("dipole_moment_of_molecule)" if fn == "large_integrate_check" else "OneDGrid)")
+    snip = LARGE_SNIPPET.format(large_src=LARGE_SRC, call=call)
+    try:
+        if fn == "large_check":
+            large_check(data, bg.Grid, bg.OneDGrid)
+        else:
+            large_integrate_check(data, bg.Grid, ut.dipole_moment_of_molecule)
+    except AssertionError as e:
+        ctx.fail("oracle", key if "dipole component" not in str(e) else "utils.dipole_moment_of_molecule:large-grid", str(e)[:500], witness=data, snippet=snip)
+    except Exception as e:
+        ctx.fail("oracle", key, f"{data['n']} points: raised {type(e).__name__}: {e}", witness=data, snippet=snip)
+
+
+def _oracle_many_orders(ctx: Ctx, budget: str):
+    """Class 21 for the number of orders / rows: order lists and moments with more than 1024 / 2000 rows on a tiny grid."""
+    ut = importlib.import_module("grid.utils")
+    rng = ctx.rng
+    for ty, l, dim in (("cartesian", 45, 3), ("cartesian", 1030, 2), ("pure", 520, 3), ("pure-radial", 33, 3), ("cartesian", 33 + ctx.seed % 5, 3)):
+        want = ref_orders(l, ty, dim)
+        ctx.tagc("oracle:many-orders:generator")
+        try:
+            got = [[int(x) for x in r] for r in np.asarray(ut.generate_orders_horton_order(l, ty, dim))]
+        except Exception as e:
+            got = [f"raised {type(e).__name__}: {e}"]
+        if got != want:
+            bad = next((i for i, (a, b) in enumerate(zip(got, want)) if a != b), min(len(got), len(want)))
+            ctx.fail("oracle", f"utils.generate_orders_horton_order:{ty}:many-rows", f"generate_orders_horton_order({l}, {ty!r}, {dim}): {len(got)} rows, expected {len(want)}; first difference at row {bad}",
+                     witness=dict(order=l, type=ty, dim=dim),
+                     snippet="import warnings; warnings.filterwarnings('ignore')\nimport numpy as np\nfrom grid.utils import generate_orders_horton_order\n" + REF_SRC
+                     + f"\ngot = [[int(x) for x in r] for r in np.asarray(generate_orders_horton_order({l}, {ty!r}, {dim}))]\nassert got == ref_orders({l}, {ty!r}, {dim}), len(got)\n")
+    for ty, L, dim in (("cartesian", 21, 3), ("radial", 1030, 3), ("pure", 33, 3), ("pure-radial", 15, 3), ("cartesian", 1026, 1)):
+        c = _small_case(ctx, ty, dim, 3, 2, L)
+        c["pts"] = [[_r(rng.uniform(-0.55, 0.55)) for _ in range(dim)] for _ in range(3)]      # inside the unit ball: r^n does not overflow
+        c["cs"] = [[_r(rng.uniform(-0.3, 0.3)) for _ in range(dim)] for _ in range(2)]
+        c.update(call="kw", twice=False, shape=f"rows>{1000}")
+        ctx.tagc("oracle:many-orders:moments")
+        _oracle_case(ctx, c)
+
+
+def _oracle_order_invariance(ctx: Ctx, budget: str):
+    """Round 5, class 22: the moments are sums over the points — descending and shuffled point orders (Grid and OneDGrid,
+    incl. a reversed library grid) give the same answer; the columns follow the order of the centres."""
+    bg = importlib.import_module("grid.basegrid")
+    od = importlib.import_module("grid.onedgrid")
+    rng = ctx.rng
+    for it in range(10 if budget == "small" else 100):
+        typ = TYPES[it % 4]
+        flat = typ in ("cartesian", "radial") and it % 3 == 0
+        c = _small_case(ctx, typ, 1 if flat else 3, rng.randint(3, 9), rng.randint(2, 4), rng.randint(1, 3))
+        if flat and it % 2 == 0:                        # a library grid, reversed
+            g0 = od.GaussLegendre(len(c["pts"]))
+            c["pts"], c["w"] = [[float(x)] for x in g0.points], [float(x) for x in g0.weights]
+        how = ("descending", "shuffled", "ascending")[it % 3]
+        idx = list(range(len(c["pts"])))
+        if how == "shuffled":
+            rng.shuffle(idx)
+        else:
+            idx.sort(key=lambda i: c["pts"][i], reverse=(how == "descending"))
+        cperm = list(range(len(c["cs"])))
+        rng.shuffle(cperm)
+        d = dict(typ=typ, L=c["L"], pts=[c["pts"][i] for i in idx], w=[c["w"][i] for i in idx], f=[c["f"][i] for i in idx], cs=[c["cs"][i] for i in cperm], flat=flat, order=how)
+        snip = ORDER_SNIPPET.format(ref_src=REF_SRC, d=d)
+        ctx.tagc(f"oracle:point-order:{how}" + (":OneDGrid" if flat else ""))
+        try:
+            exec(snip, {})
+        except AssertionError as e:
+            ctx.fail("oracle", f"basegrid.moments:{typ}:point-order", str(e)[:500], witness=d, snippet=snip)
+        except Exception as e:
+            ctx.fail("oracle", f"basegrid.moments:{typ}:point-order", f"points in {how} order: raised {type(e).__name__}: {e}", witness=d, snippet=snip)
+
+
+ORDER_SNIPPET = """import warnings; warnings.filterwarnings('ignore')
+import math, numpy as np
+from grid.basegrid import Grid, OneDGrid
+{ref_src}
+d = {d!r}
+P, W, F, C = np.array(d['pts'], dtype=float), np.array(d['w'], dtype=float), np.array(d['f'], dtype=float), np.array(d['cs'], dtype=float)
+g = OneDGrid(P[:, 0].copy(), W.copy()) if d['flat'] else Grid(P.copy(), W.copy())
+vals = np.asarray(g.moments(d['L'], C, F, type_mom=d['typ']), dtype=float)
+rows = ref_all_orders(d['L'], d['typ'], P.shape[1])
+assert vals.shape == (len(rows), len(C)), vals.shape
+for k, order in enumerate(rows):
+    for ci, c in enumerate(d['cs']):
+        want, scale = direct(d['typ'], order, d['pts'], d['w'], d['f'], c)
+        assert abs(vals[k][ci] - want) <= 1e-9 * (scale + 1e-300), f"points in {{d['order']}} order, row {{k}} {{order}} centre {{ci}}: moments {{vals[k][ci]!r}}, direct quadrature {{want!r}}"
+"""
+
+# round 5, classes 25 / 26 / 23: the same argument objects edited in place between two calls; two grid instances that
+# differ in one hidden respect (a node exactly on the centre or not) used alternately; narrow / extended precision
+# arguments given directly (answer = float64 answer on the same values, argument unchanged, second call identical).
+INPLACE_SRC = """
+def quad_ref(typ, L, pts, w, f, cs):
+    rows = ref_all_orders(L, typ, len(pts[0]))
+    return [[direct(typ, o, pts, w, f, c) for c in cs] for o in rows]
+def agree(vals, ref, what):
+    vals = np.asarray(vals, dtype=float)
+    assert vals.shape == (len(ref), len(ref[0])), f'{what}: shape {vals.shape}'
+    for k, row in enumerate(ref):
+        for ci, (want, scale) in enumerate(row):
+            assert abs(vals[k][ci] - want) <= 1e-9 * (scale + 1e-300), f'{what}: row {k} centre {ci}: moments {vals[k][ci]!r}, direct quadrature {want!r}'
+def inplace_scenario(d, Grid):
+    pts, w, typ, L = d['pts'], d['w'], d['typ'], d['L']
+    g = Grid(np.array(pts, dtype=float), np.array(w, dtype=float))
+    f, cs = np.array(d['f1'], dtype=float), np.array(d['cs1'], dtype=float)
+    agree(g.moments(L, cs, f, type_mom=typ), quad_ref(typ, L, pts, w, d['f1'], d['cs1']), 'first call')
+    f[:] = d['f2']                                       # the same array objects with new contents
+    cs *= 0.0
+    cs += np.array(d['cs2'], dtype=float)
+    agree(g.moments(L, cs, f, type_mom=typ), quad_ref(typ, L, pts, w, d['f2'], d['cs2']), 'second call with the same array objects edited in place (f[:] = new, centres overwritten)')
+    f *= -2.0
+    agree(g.moments(L, cs, f, type_mom=typ), quad_ref(typ, L, pts, w, [-2.0 * x for x in d['f2']], d['cs2']), 'third call after f *= -2')
+    i0 = float(g.integrate(f))
+    t = [a * b * -2.0 for a, b in zip(w, d['f2'])]
+    assert abs(i0 - math.fsum(t)) <= 1e-12 * (math.fsum(map(abs, t)) + 1e-300), f'integrate after the in-place edits: {i0!r}, sum w f = {math.fsum(t)!r}'
+def two_instances_scenario(d, Grid):
+    pa, pb, w, typ, L, cs = d['pts_a'], d['pts_b'], d['w'], d['typ'], d['L'], d['cs']
+    ga, gb = Grid(np.array(pa, dtype=float), np.array(w, dtype=float)), Grid(np.array(pb, dtype=float), np.array(w, dtype=float))
+    f, c = np.array(d['f'], dtype=float), np.array(cs, dtype=float)
+    ra, rb = quad_ref(typ, L, pa, w, d['f'], cs), quad_ref(typ, L, pb, w, d['f'], cs)
+    for step, which in enumerate(d['sequence']):
+        g, ref = (ga, ra) if which == 'a' else (gb, rb)
+        agree(g.moments(L, c, f, type_mom=typ), ref, f'call {step} of the sequence {d["sequence"]} on two grid objects (this one: {which}, ' + ('with' if which == 'a' else 'without') + ' a node exactly on the first centre)')
+def narrow_scenario(d, Grid):
+    pts, w, typ, L, kind, what = d['pts'], d['w'], d['typ'], d['L'], d['kind'], d['what']
+    g = Grid(np.array(pts, dtype=float), np.array(w, dtype=float))
+    f, cs = np.array(d['f'], dtype=float), np.array(d['cs'], dtype=float)
+    if what == 'centers':
+        cs = cs.astype(kind)
+    else:
+        f = f.astype(kind)
+    f0, c0 = f.copy(), cs.copy()
+    v1 = g.moments(L, cs, f, type_mom=typ)
+    assert np.array_equal(f, f0) and np.array_equal(cs, c0) and f.dtype == f0.dtype and cs.dtype == c0.dtype, f'the {kind} {what} argument was modified'
+    v2 = g.moments(L, cs, f, type_mom=typ)
+    assert np.array_equal(np.asarray(v1), np.asarray(v2)), f'a second call with the same {kind} {what} object differs from the first'
+    agree(v1, quad_ref(typ, L, pts, w, [float(x) for x in f], [[float(x) for x in r] for r in cs]), f'{what} given as {kind}')
+"""
+exec(INPLACE_SRC, _ns)
+inplace_scenario, two_instances_scenario, narrow_scenario = _ns["inplace_scenario"], _ns["two_instances_scenario"], _ns["narrow_scenario"]
+SCENARIO_SNIPPET = """import warnings; warnings.filterwarnings('ignore')
+import math, numpy as np
+from grid.basegrid import Grid
+{ref_src}
+{src}
+{fn}({d!r}, Grid)
+"""
+
+
+def _oracle_scenarios5(ctx: Ctx, budget: str):
+    bg = importlib.import_module("grid.basegrid")
+    rng = ctx.rng
+
+    def run(fn, name, key, d):
+        snip = SCENARIO_SNIPPET.format(ref_src=REF_SRC, src=INPLACE_SRC, fn=name, d=d)
+        ctx.tagc(f"oracle:{name}")
+        try:
+            fn(d, bg.Grid)
+        except AssertionError as e:
+            ctx.fail("oracle", key, str(e)[:500], witness=d, snippet=snip)
+        except Exception as e:
+            ctx.fail("oracle", key, f"{name}: raised {type(e).__name__}: {e}", witness=d, snippet=snip)
+
+    for it in range(8 if budget == "small" else 80):
+        typ = TYPES[it % 4]
+        c = _small_case(ctx, typ, 3, rng.randint(2, 8), rng.randint(1, 3), rng.randint(1, 3))
+        n, nc = len(c["pts"]), len(c["cs"])
+        d = dict(pts=c["pts"], w=c["w"], typ=typ, L=c["L"], f1=c["f"], cs1=c["cs"], f2=[_r(rng.uniform(-2, 2)) for _ in range(n)],
+                 cs2=[[_r(rng.uniform(-1, 1)) for _ in range(3)] for _ in range(nc)])
+        run(inplace_scenario, "inplace_scenario", f"basegrid.moments:{typ}:edited-in-place", d)
+        pb = [list(p_) for p_ in c["pts"]]
+        pa = [list(p_) for p_ in pb]
+        pa[rng.randrange(n)] = list(c["cs"][0])              # instance a has a node exactly on the first centre, b has not
+        seq = rng.choice(["abab", "baba", "aabb", "bbaa", "abba"])
+        d = dict(pts_a=pa, pts_b=pb, w=c["w"], typ=typ, L=c["L"], f=c["f"], cs=c["cs"], sequence=seq)
+        run(two_instances_scenario, "two_instances_scenario", f"basegrid.moments:{typ}:two-instances", d)
+        kind, what = rng.choice(["float32", "float16", "longdouble", "int64"]), rng.choice(["centers", "func_vals"])
+        cast = {"float32": lambda x: float(np.float32(x)), "float16": lambda x: float(np.float16(x)), "longdouble": float, "int64": lambda x: float(round(2 * x))}[kind]
+        d = dict(pts=c["pts"], w=c["w"], typ=typ, L=c["L"], kind=kind, what=what,
+                 f=[cast(x) if what == "func_vals" else x for x in c["f"]], cs=[[cast(x) if what == "centers" else x for x in r] for r in c["cs"]])
+        run(narrow_scenario, "narrow_scenario", f"basegrid.moments:{typ}:{what}:{kind}", d)
+
 
 def _oracle_integrate(ctx: Ctx, budget: str):
     """Grid.integrate is the grid quadrature: sum_i w_i prod_k a_k[i] for 1-4 arrays, values over 24 orders of magnitude."""
@@ -1886,6 +2224,14 @@ def oracle(ctx: Ctx, budget: str):
         _oracle_shared_args(ctx, budget)
     with parts("value-kinds"):
         _oracle_value_kinds(ctx, budget)
+    with parts("large-sizes"):
+        _oracle_large(ctx, budget)
+    with parts("many-orders"):
+        _oracle_many_orders(ctx, budget)
+    with parts("point-order"):
+        _oracle_order_invariance(ctx, budget)
+    with parts("scenarios-round5"):
+        _oracle_scenarios5(ctx, budget)
     with parts("points-1d"):
         # 1-D grids of the library have a one-dimensional point array (N,)
         od = importlib.import_module("grid.onedgrid")
@@ -1975,7 +2321,12 @@ def oracle(ctx: Ctx, budget: str):
                          snippet=f"from grid.utils import isotopic_masses\nassert all(z in isotopic_masses for z in {missing})\n")
                 continue
             d["masses"] = [float(ut.isotopic_masses[z]) for z in d["charges"]]
-            d["container"] = ctx.rng.choice(["array", "array", "list", "int32-charges", "float-charges", "readonly", "keywords"])
+            d["container"] = ctx.rng.choice(["array", "array", "list", "int32-charges", "float-charges", "readonly", "keywords", "float32-coords", "longdouble-density",
+                                             "float32-density", "inplace"])
+            if d["container"] == "float32-coords":
+                d["coords"] = [[float(np.float32(x)) for x in r] for r in d["coords"]]
+            elif d["container"] == "float32-density":
+                d["dens"] = [float(np.float32(x)) for x in d["dens"]]
             d["twice"] = ctx.rng.random() < 0.3
             ctx.tagc("oracle:dipole:" + ("charged" if d.get("net_charge") else "shifted" if d.get("shift") else "plain"))
             _oracle_dipole_case(ctx, d)
